@@ -11,6 +11,12 @@ let next_op st =
     let src = next_opt st next_str in
     let reason = next_opt st next_req in
     OpAdd (nm, md, src, reason)
+  | "AF" ->
+    let nm = next_str st in
+    let md = next_opt st next_dist in
+    let sid = nat_of_int (next_int st) in
+    let reason = next_opt st next_req in
+    OpAddFrom (nm, md, sid, reason)
   | "I" -> OpInvalidate (next_str st)
   | "R" -> OpRemove (next_str st)
   | s -> failwith ("bad op " ^ s)
